@@ -1,6 +1,8 @@
 #!/bin/bash
-# usage: tools/neutral_all.sh <NN>   - intake every deliver/* of /tmp/wt/n<NN> as neutral changes of property C<NN>
-n=$1
-for d in /tmp/wt/n$n/deliver/*; do
+# usage: tools/neutral_all.sh <NN> [prefix]   - intake every deliver/* of /tmp/wt/<prefix><NN> (default prefix n) as neutral changes of property C<NN>
+n=$1; pre=${2:-n}
+for d in /tmp/wt/$pre$n/deliver/*; do
+  b=$(basename $d)
+  if [ -d /verif/seeded-neutral/C$n-$b ] && ! diff -q $d/patch.diff /verif/seeded-neutral/C$n-$b/patch.diff >/dev/null 2>&1; then mv $d ${d}_r2; d=${d}_r2; fi
   /verif/tools/neutral_intake.py C$n $d
 done
